@@ -5,6 +5,7 @@ import asyncio
 import copy
 import json
 import os
+import signal
 import tempfile
 import types
 import weakref
@@ -182,6 +183,9 @@ def op_line(I: dict, t: int, op: list) -> str:
         return f"{k}|{op[1]}|{t}|{kd['type']}|{','.join(kd['types'] or [])}"
     if k == "trim":
         return f"trim|{op[1]}|{op[2]}"
+    if k == "race":
+        kd = I["kinds"][op[4]]
+        return f"race|{op[1]}|{op[3]}|{t}|{kd['type']}|{','.join(kd['types'] or [])}"
     if k == "open":
         return f"open|{op[1]}|{op[2]}"
     if k in ("next", "cancel", "apinext", "apicancel"):
@@ -203,6 +207,34 @@ def op_line(I: dict, t: int, op: list) -> str:
 
 # --------------------------------------------------------------------------
 # running the real stores, one op at a time, to quiescence
+
+
+class WallTimeout(KeyboardInterrupt):
+    """raised by the wall-clock watchdog; derives from KeyboardInterrupt so that asyncio lets it through"""
+
+
+def with_watchdog(seconds: float, fn):
+    """run fn(); a store that never suspends (e.g. a subscriber re-reading the same row for ever) cannot be
+    stopped by virtual time, only by real time"""
+    armed = [True]
+
+    def on_alarm(_sig, _frm):
+        if armed[0]:
+            armed[0] = False
+            raise WallTimeout()
+
+    old = signal.signal(signal.SIGALRM, on_alarm)
+    signal.setitimer(signal.ITIMER_REAL, seconds)
+    try:
+        return fn()
+    finally:
+        armed[0] = False
+        signal.setitimer(signal.ITIMER_REAL, 0)
+        signal.signal(signal.SIGALRM, old)
+
+
+WALL_LIMIT = 5.0
+FAIL_FAST = 6  # distinct violation signatures after which the search stops (the tree is broken anyway)
 
 
 class Sched:
@@ -292,10 +324,11 @@ class Real:
                 r["pending"] = False
                 try:
                     ev = t.result()
-                    r["out"].append((ev.sequence, ev.event.value.get("tag")))
+                    (r["after_end"] if (r["ended"] or r["cancelled"]) else r["out"]).append((ev.sequence, ev.event.value.get("tag")))
                     outs.append(f"s{g}={self.show(ev)}")
                 except StopAsyncIteration:
-                    r["ended"] = True
+                    if not r["cancelled"]:
+                        r["ended"] = True
                     outs.append(f"s{g}=end")
                 except BaseException as e:  # noqa: BLE001
                     outs.append(f"s{g}=raises {type(e).__name__}")
@@ -326,6 +359,19 @@ class Real:
                 return "unsupported"
             target = store if k == "append" else self.writer2
             await target.append_event(run, envelope(I, kind, t))
+            rec.published.setdefault(run, []).append((t, kind))
+            await sc.settle()
+            seq = [e.sequence for e in await store.query_events(run) if e.event.value.get("tag") == t]
+            return f"seq={seq[-1] if seq else '?'} " + self.collect()
+        if k == "race":
+            # __anext__ of subscriber g is in flight (it got `turns` turns of the loop) when the event is published
+            _, g, turns, run, kind = op
+            if 0 <= g < len(self.gens) and g not in self.pending:
+                self.pending[g] = asyncio.ensure_future(self.gens[g].__anext__())
+                rec.subs[g]["pending"] = True
+                for _ in range(turns):
+                    await asyncio.sleep(0)
+            await store.append_event(run, envelope(I, kind, t))
             rec.published.setdefault(run, []).append((t, kind))
             await sc.settle()
             seq = [e.sequence for e in await store.query_events(run) if e.event.value.get("tag") == t]
@@ -498,10 +544,14 @@ def run_real(I: dict, leg: str, ops: list[list]) -> tuple[list[str], Rec]:
                 await real.finish(sc)
 
     try:
-        vloop.run_virtual(main, max_time=1000.0 + 10_000_000.0)
+        with_watchdog(WALL_LIMIT, lambda: vloop.run_virtual(main, max_time=1000.0 + 10_000_000.0))
     except TimeoutError:
         outs.append("deadlock")
-        holder.setdefault("rec", Rec()).errors.append("virtual loop deadlocked")
+        holder.setdefault("rec", Rec()).errors.append("op ?: deadlock: virtual loop deadlocked")
+    except WallTimeout:
+        outs.append("livelock")
+        holder.setdefault("rec", Rec()).errors.append(f"op {len(outs) - 1} {ops[len(outs) - 1] if 0 < len(outs) <= len(ops) else '?'}: livelock: "
+                                                      f"the store kept running without suspending for {WALL_LIMIT:.0f} s of real time")
     return outs, holder["rec"]
 
 
@@ -559,7 +609,8 @@ def monitor_store(I: dict, leg: str, case: dict, rec: Rec, drained: bool) -> lis
         vs.append(Violation(f"C16/{rule}[store={name},{facts}]", what, case))
 
     for e in rec.errors:
-        V("store_raises", "what=" + e.split(":")[1].strip().split(" ")[0] if ":" in e else "what=?", f"{name}: {e}")
+        parts = e.split(": ")
+        V("store_raises", "what=" + (parts[1].split(" ")[0] if len(parts) > 1 else "?"), f"{name}: {e}")
     # consecutive numbering in publication order
     for run, pub in rec.published.items():
         stored = rec.stored.get(run, [])
@@ -698,7 +749,7 @@ def monitor_api(I: dict, leg: str, case: dict, rec: Rec, drained: bool) -> list[
 
 def monitor_agreement(case: dict, outs: dict[str, list[str]], recs: dict[str, Rec], lockstep: bool, drained: bool) -> list[Violation]:
     vs: list[Violation] = []
-    ops = case["ops"]
+    ops = full_ops(case)
     if lockstep:
         for other in ("sql", "sql1"):
             a, b = outs["mem"], outs[other]
@@ -796,6 +847,16 @@ def gen_store_stream(rng, flavour: str) -> dict:
                     after = 0
             ops.append(["open", r, after])
             subs.append({"run": r, "after": after, "nexts": 0})
+        elif x < 0.50 and subs and (term_at[r] is None or after_terminal_ok):
+            g = rng.randrange(len(subs))
+            rr = subs[g]["run"] if rng.random() < 0.8 else r
+            if term_at[rr] is None or after_terminal_ok:
+                kind = gen_kind(rng, p_term)
+                ops.append(["race", g, rng.choice([1, 1, 2, 3]), rr, kind])
+                subs[g]["nexts"] += 1
+                if term_at[rr] is None and kind in TERMINAL:
+                    term_at[rr] = n[rr]
+                n[rr] += 1
         elif x < 0.78 and subs:
             g = rng.randrange(len(subs))
             for _ in range(rng.choice([1, 1, 1, 2, 3])):
@@ -830,7 +891,6 @@ def gen_store_stream(rng, flavour: str) -> dict:
             if term_at[r] is None:
                 ops.append(["append", r, rng.choice(TERMINAL)])
                 n[r] += 1
-    ops += drain_ops(len(subs), 0, max(n.values()))
     return {"kind": flavour, "ops": ops}
 
 
@@ -883,37 +943,45 @@ def gen_api_stream(rng) -> dict:
     if rng.random() < 0.5 and not term:
         ops.append(["append", "r1", rng.choice(TERMINAL)])
         n += 1
-    ops += drain_ops(0, napi, n)
     return {"kind": "api", "ops": ops}
 
 
-MALFORMED = ["", "append", "append|r|x|Event|", "open|r|", "open|r|1.5", "next|-1", "next|a", "query|r|~", "query|r|x|~",
+MALFORMED = ["", "race|0|r|x|Event|", "race|0|r", "append", "append|r|x|Event|", "open|r|", "open|r|1.5", "next|-1", "next|a", "query|r|~", "query|r|x|~",
              "trim|r|-1", "apiopen|h|2|~|x|~|0", "apiopen|h|1|1,,2|x|~|0", "bogus|1", "tick|1", "backend|pg", "cancel"]
 
 
 def corpus() -> list[dict]:
     cs: list[dict] = []
+    wit = os.path.join(os.path.dirname(os.path.dirname(os.path.abspath(__file__))), "corpus", "c16_cursor_ahead_of_log.json")
+    try:
+        cs.append(json.load(open(wit))["case"])
+    except (OSError, KeyError, ValueError):
+        pass
     # slow consumer: an append lands while the subscriber is suspended in the middle of a batch (seeded/C16-a)
     ops = [["append", "r1", "event"], ["append", "r1", "event"], ["open", "r1", -1], ["next", 0], ["append", "r1", "event"],
            ["next", 0], ["next", 0], ["next", 0], ["append", "r1", "stop"], ["next", 0], ["open", "r1", 0]]
-    cs.append({"kind": "core", "ops": ops + drain_ops(2, 0, 4)})
+    cs.append({"kind": "core", "ops": ops})
+    # publication while __anext__ is in flight (1..3 loop turns after it started): must behave as if read-and-wait were atomic
+    ops = [["open", "r1", -1], ["race", 0, 1, "r1", "event"], ["race", 0, 2, "r1", "event"], ["next", 0], ["race", 0, 1, "r1", "idle"],
+           ["race", 0, 3, "r1", "event"], ["open", "r1", 3], ["race", 1, 1, "r1", "event"], ["race", 1, 1, "r1", "stop"], ["race", 1, 1, "r1", "event"]]
+    cs.append({"kind": "core", "ops": ops})
     # a cursor ahead of the log (memory store yielded events at or below it before the repair)
     ops = [["append", "r1", "event"], ["append", "r1", "event"], ["open", "r1", 5], ["next", 0], ["append", "r1", "event"],
            ["append", "r1", "event"], ["next", 0], ["append", "r1", "event"], ["append", "r1", "event"], ["append", "r1", "event"],
            ["next", 0], ["append", "r1", "failed"]]
-    cs.append({"kind": "core", "ops": ops + drain_ops(1, 0, 8)})
+    cs.append({"kind": "core", "ops": ops})
     # terminal in the middle, subscribers before / at / after it, publications after the terminal event
     ops = [["append", "r1", "event"], ["append", "r1", "mystop"], ["append", "r1", "event"], ["open", "r1", -1], ["open", "r1", 0],
            ["open", "r1", 1], ["open", "r1", 2], ["append", "r1", "deepstop"]]
-    cs.append({"kind": "core", "ops": ops + drain_ops(4, 0, 4)})
+    cs.append({"kind": "core", "ops": ops})
     # two runs are independent; blocked subscribers are woken by their own run only
     ops = [["open", "r1", -1], ["open", "r2", -1], ["next", 0], ["next", 1], ["append", "r2", "event"], ["append", "r1", "idle"],
            ["next", 0], ["next", 1], ["cancel", 1], ["append", "r2", "stop"], ["append", "r1", "cancelled"], ["next", 1]]
-    cs.append({"kind": "core", "ops": ops + drain_ops(2, 0, 3)})
+    cs.append({"kind": "core", "ops": ops})
     # external writer: only the poll finds the rows
     ops = [["open", "r1", -1], ["next", 0], ["xappend", "r1", "event"], ["tick"], ["next", 0], ["xappend", "r1", "event"],
            ["append", "r1", "event"], ["next", 0], ["xappend", "r1", "timedout"]]
-    cs.append({"kind": "ext", "ops": ops + drain_ops(1, 0, 4)})
+    cs.append({"kind": "ext", "ops": ops})
     # deletion of the oldest rows: next sequence is last + 1, not the count; all rows: numbering restarts
     ops = [["append", "r1", "event"], ["append", "r1", "event"], ["append", "r1", "event"], ["trim", "r1", 2], ["append", "r1", "event"],
            ["query", "r1", None, None], ["open", "r1", 2], ["next", 0], ["trim", "r1", 5], ["append", "r1", "event"], ["query", "r1", None, None],
@@ -926,10 +994,10 @@ def corpus() -> list[dict]:
            ["apiopen", "nope", True, None, None, True], ["apiopen", "h0", True, None, None, True], ["apiopen", "h1", True, "NOW", "abc", True],
            ["apinext", 0], ["apinext", 1], ["apinext", 1], ["apinext", 2], ["apinext", 2], ["apinext", 3], ["apinext", 4],
            ["append", "r1", "event"], ["append", "r1", "raw_both"], ["apiopen", "h1", True, None, None, True], ["apiopen", "h1", True, "1", None, True]]
-    cs.append({"kind": "api", "ops": ops + drain_ops(0, 7, 4)})
+    cs.append({"kind": "api", "ops": ops})
     ops = [["handler", "h1", "r1", "completed"], ["apiopen", "h1", True, None, None, True], ["append", "r1", "event"],
            ["apiopen", "h1", True, None, None, True], ["apiopen", "h1", True, "-1", None, True], ["apinext", 0], ["apinext", 0]]
-    cs.append({"kind": "api", "ops": ops + drain_ops(0, 1, 1)})
+    cs.append({"kind": "api", "ops": ops})
     return cs
 
 
@@ -972,6 +1040,9 @@ def run_free(I: dict, leg: str, sc_case: dict) -> list[Violation]:
                     try:
                         async for ev in gen:
                             res["out"].append((ev.sequence, ev.event.value.get("tag")))
+                            if len(res["out"]) > 3 * len(prod) + 10:
+                                res["overflow"] = True
+                                return
                             after = ev.sequence
                             got_here += 1
                             if pauses:
@@ -1008,13 +1079,21 @@ def run_free(I: dict, leg: str, sc_case: dict) -> list[Violation]:
                 conn.close()
 
     try:
-        vloop.run_virtual(main, max_time=1000.0 + 1_000_000.0)
+        with_watchdog(WALL_LIMIT, lambda: vloop.run_virtual(main, max_time=1000.0 + 1_000_000.0))
     except TimeoutError:
         holder["timeout"] = True
+    except WallTimeout:
+        holder["timeout"] = True
+        holder["livelock"] = True
     name = STORE_NAME[leg]
     case = {"kind": "free", "scenario": sc_case}
     vs: list[Violation] = []
     pub = [(t, kind) for t, (_d, kind, _x) in enumerate(prod)]
+    if holder.get("livelock"):
+        return [Violation(f"C16/free_running[store={name},what=livelock]",
+                          f"{name}: producer/consumer scenario kept running without suspending for {WALL_LIMIT:.0f} s of real time", case)]
+    if "stored" not in holder:
+        return [Violation(f"C16/free_running[store={name},what=deadlock]", f"{name}: producer/consumer scenario deadlocked", case)]
     stored = holder.get("stored", [])
     if [s for s, _ in stored] != list(range(len(pub))) or [t for _, t in stored] != [t for t, _ in pub]:
         vs.append(Violation(f"C16/consecutive[store={name},what=free-running]", f"{name}: stored {stored} after publishing {len(pub)} events concurrently with subscribers", case))
@@ -1047,6 +1126,18 @@ def gen_free(rng) -> dict:
 # --------------------------------------------------------------------------
 
 
+def full_ops(case: dict) -> list[list]:
+    """the stream as executed: the case's ops followed by the drain phase (every subscriber is advanced until it
+    blocks or ends, with poll ticks in between), so that completeness can be judged"""
+    ops = case["ops"]
+    if case["kind"] == "trim":
+        return list(ops)
+    nsub = sum(1 for o in ops if o[0] == "open")
+    napi = sum(1 for o in ops if o[0] == "apiopen")
+    nlog = sum(1 for o in ops if o[0] in ("append", "xappend", "race"))
+    return list(ops) + drain_ops(nsub, napi, nlog)
+
+
 def legs_for(kind: str) -> list[str]:
     if kind == "api":
         return ["mem", "sql", "sql1"]
@@ -1055,7 +1146,7 @@ def legs_for(kind: str) -> list[str]:
 
 def check_case(I: dict, case: dict, out: Outcome, batches: dict[str, list], api_ok: bool) -> list[Violation]:
     """run one op stream on every leg, queue the model comparison, run the monitors"""
-    kind, ops = case["kind"], case["ops"]
+    kind, ops = case["kind"], full_ops(case)
     if kind == "api" and not api_ok:
         return []
     lines = [op_line(I, t, op) for t, op in enumerate(ops)]
@@ -1101,11 +1192,13 @@ def compare_model(out: Outcome, batches: dict[str, list]) -> None:
                 out.divergences.append(d)
 
 
-def shrink(I: dict, case: dict, sig: str, api_ok: bool) -> dict:
+def shrink(I: dict, case: dict, v0: Violation, api_ok: bool) -> Violation:
     """greedy removal of ops while a violation with the same signature remains"""
     if case.get("kind") not in ("core", "ext", "api"):
-        return case
+        return v0
     ops = list(case["ops"])
+    sig = v0.signature
+    best = [v0]
 
     def bad(cand: list) -> bool:
         c = {"kind": case["kind"], "ops": cand}
@@ -1113,7 +1206,10 @@ def shrink(I: dict, case: dict, sig: str, api_ok: bool) -> dict:
             vs = check_case(I, c, Outcome(), {}, api_ok)
         except Exception:  # noqa: BLE001
             return False
-        return any(v.signature == sig for v in vs)
+        hit = [v for v in vs if v.signature == sig]
+        if hit:
+            best[0] = hit[0]
+        return bool(hit)
 
     def drop(ops: list, i: int) -> list:
         op = ops[i]
@@ -1124,11 +1220,13 @@ def shrink(I: dict, case: dict, sig: str, api_ok: bool) -> dict:
             idx = sum(1 for o in ops[:i] if o[0] == op[0])
             res2 = []
             for o in res:
-                if o[0] in (nk, ck):
+                if o[0] in (nk, ck) or (o[0] == "race" and op[0] == "open"):
                     if o[1] == idx:
+                        if o[0] == "race":
+                            res2.append(["append", o[3], o[4]])
                         continue
                     if o[1] > idx:
-                        o = [o[0], o[1] - 1]
+                        o = [o[0], o[1] - 1] + list(o[2:])
                 res2.append(o)
             return res2
         return res
@@ -1146,7 +1244,7 @@ def shrink(I: dict, case: dict, sig: str, api_ok: bool) -> dict:
             i = min(i, len(ops)) - 1
         else:
             i -= 1
-    return {"kind": case["kind"], "ops": ops}
+    return best[0]
 
 
 def run(env: Env) -> Outcome:
@@ -1191,28 +1289,42 @@ def run(env: Env) -> Outcome:
         out.count("stream:" + case["kind"])
         for op in case["ops"]:
             out.count("op:" + op[0])
-            if op[0] in ("append", "xappend"):
-                kd = I["kinds"][op[2]]
+            if op[0] in ("append", "xappend", "race"):
+                kd = I["kinds"][op[4] if op[0] == "race" else op[2]]
                 out.count("event:" + ("terminal" if kd["terminal"] else "internal" if kd["internal"] else "plain"))
             if op[0] == "open":
                 out.count("cursor:" + ("start" if op[2] == -1 else "below-start" if op[2] < -1 else "explicit"))
-        vs = check_case(I, case, out, batches, api_ok)
+        if len(seen_sigs) >= FAIL_FAST:
+            out.notes.append(f"stopped after {len(seen_sigs)} distinct violation signatures")
+            break
+        try:
+            vs = check_case(I, case, out, batches, api_ok)
+        except WallTimeout:  # a watchdog that fired outside the guarded region (cleanup of a runaway task)
+            vs = [Violation("C16/store_raises[store=?,what=livelock]", "a store kept running without suspending (watchdog fired during cleanup)", case)]
         for v in vs:
             if v.signature in seen_sigs:
                 continue
             seen_sigs.add(v.signature)
-            small = shrink(I, case, v.signature, api_ok) if len(case["ops"]) > 12 else case
-            out.violations.append(Violation(v.signature, v.what, small))
+            try:
+                out.violations.append(shrink(I, case, v, api_ok) if (len(case["ops"]) > 12 and len(seen_sigs) <= 2) else v)
+            except WallTimeout:
+                out.violations.append(v)
         if any(o[0] in ("next", "apinext") for o in case["ops"]):
             out.nontrivial(case["ops"])
         if len(out.samples) < 4 and case["kind"] in ("core", "api") and len(case["ops"]) < 60:
             out.sample({"kind": case["kind"], "ops": [op_line(I, t, op) for t, op in enumerate(case["ops"])][:25]})
     compare_model(out, batches)
     for fc in free_cases:
+        if len(seen_sigs) >= FAIL_FAST:
+            break
         out.count("stream:free")
         for leg in LEGS:
             out.evaluations += 1
-            for v in run_free(I, leg, fc):
+            try:
+                fvs = run_free(I, leg, fc)
+            except WallTimeout:
+                fvs = [Violation(f"C16/free_running[store={STORE_NAME[leg]},what=livelock]", "watchdog fired during cleanup", {"kind": "free", "scenario": fc})]
+            for v in fvs:
                 if v.signature not in seen_sigs:
                     seen_sigs.add(v.signature)
                     out.violations.append(v)
